@@ -208,6 +208,12 @@ func mergePossibleTypes(sources []*ast.Schema, mergedTypes map[string]*ast.Defin
 func mergeRootObjects(aTypes, bTypes map[string]*ast.Definition, a, b *ast.Definition) (*ast.Definition, error) {
 	var fields ast.FieldList = a.Fields
 	for _, f := range b.Fields {
+		// a schema without the node field must not hide the one already merged
+		if isNodeField(f) && fields.ForName(f.Name) == nil {
+			fields = append(fields, f)
+			continue
+		}
+
 		if common.IsBuiltinName(f.Name) || isNodeField(f) {
 			continue
 		}
